@@ -1,6 +1,6 @@
 (* C17 — JSON strings: the reader's unescape inverts the writer's escape on every byte string, and decodes
-   \uXXXX escapes (surrogate pairs included) of every scalar value under the RFC combination; the
-   combination written in tape.rs agrees with it exactly when bit 6 of (high - 0xD800) is clear. *)
+   \uXXXX escapes (surrogate pairs included) of every scalar value, under the RFC combination and under
+   the combination written in tape.rs (which is the RFC one since the repair c21c3ff). *)
 From Coq Require Import List NArith ZArith Lia Bool ZifyN ZifyNat ZifyBool.
 From AV Require Import Base.Bits Base.Utf8 Model.C17_Json Proofs.C17_Varint.
 Import ListNotations.
@@ -134,49 +134,24 @@ Proof.
   - apply step_pair; [exact Hge|exact Hm|]. unfold sp_spec. lia.
 Qed.
 
-(* M: the combination of tape.rs *)
-Lemma sp_combine_ok h l : h < 1024 -> l < 1024 -> N.testbit h 6 = false ->
-  sp_combine (55296 + h) (56320 + l) = sp_spec (55296 + h) (56320 + l).
-Proof.
-  intros Hh Hl Hb. unfold sp_combine, sp_spec.
-  replace (55296 + h - 55296) with h by lia. replace (56320 + l - 56320) with l by lia.
-  assert (Hland : N.land (N.shiftl h 10) (l + 65536) = 0).
-  { apply N.bits_inj. intros i. rewrite N.land_spec, N.bits_0.
-    replace (l + 65536) with (l + 2^16 * 1) by reflexivity.
-    rewrite (testbit_add_shift l 1 16 i) by (change (2^16) with 65536; lia).
-    destruct (N.ltb_spec i 10) as [Hi|Hi].
-    - rewrite N.shiftl_spec_low by exact Hi. reflexivity.
-    - rewrite N.shiftl_spec_high' by exact Hi.
-      destruct (N.ltb_spec i 16) as [Hi2|Hi2].
-      + rewrite (testbit_high l 10 i) by (change (2^10) with 1024; lia). apply andb_false_r.
-      + destruct (N.eq_dec i 16) as [->|Hne].
-        * change (16 - 10) with 6. now rewrite Hb.
-        * replace (N.testbit 1 (i - 16)) with false; [apply andb_false_r|].
-          symmetry. apply (testbit_high 1 1); [reflexivity|lia]. }
-  rewrite <- N.lxor_lor by exact Hland.
-  rewrite <- N.add_nocarry_lxor by exact Hland.
-  rewrite N.shiftl_mul_pow2. change (2^10) with 1024. lia.
-Qed.
+(* M: the combination of tape.rs equals the RFC one *)
+Lemma sp_combine_ok high low : sp_combine high low = sp_spec high low.
+Proof. unfold sp_combine, sp_spec. rewrite N.shiftl_mul_pow2. change (2^10) with 1024. lia. Qed.
 
 Theorem u_escape_impl c tail acc : scalar c = true ->
-  (c < 65536 \/ N.testbit ((c - 65536) / 1024) 6 = false) ->
   unescape_go sp_combine (u_escape c ++ tail) acc = unescape_go sp_combine tail (rev (encode c) ++ acc).
 Proof.
-  intros Hs Hc. destruct (scalar_bounds c Hs) as [Hr Hm].
+  intros Hs. destruct (scalar_bounds c Hs) as [Hr Hm].
   destruct (N.lt_ge_cases c 65536) as [Hlt|Hge].
   - unfold u_escape. destruct (N.ltb_spec c 65536) as [_|?]; [|lia].
     apply step_u16; [exact Hlt|].
     unfold is_bmp_char. destruct (N.leb_spec 55296 c); destruct (N.leb_spec c 57343); try reflexivity; lia.
-  - destruct Hc as [?|Hb]; [lia|].
-    apply step_pair; [exact Hge|exact Hm|].
-    rewrite sp_combine_ok; [unfold sp_spec; lia|lia|lia|exact Hb].
+  - apply step_pair; [exact Hge|exact Hm|]. rewrite sp_combine_ok. unfold sp_spec. lia.
 Qed.
 
-(* the defect: U+20000 written as the pair D840 DC00 is read as U+10000 *)
-Lemma u_escape_impl_refuted_witness :
-  unescape sp_combine (u_escape 131072 ++ [34]) = Some (encode 65536, []) /\
-  unescape sp_spec (u_escape 131072 ++ [34]) = Some (encode 131072, []) /\ encode 65536 <> encode 131072.
-Proof. split; [reflexivity|split; [reflexivity|discriminate]]. Qed.
+(* non-vacuity: U+20000 (high surrogate D840, bit 6 of the offset set) *)
+Example u_escape_impl_20000 : unescape sp_combine (u_escape 131072 ++ [34]) = Some (encode 131072, []).
+Proof. reflexivity. Qed.
 
 (* ------------------------------------------------------------------ code point lists *)
 Theorem string_value_escape comb cps : Forall (fun c => scalar c = true) cps ->
